@@ -105,11 +105,13 @@ class Subroutine:
         result += f"App ID: {self.app_id}\n"
 
         result += " LN | HLN | CMD\n"
-        for i, instr in enumerate(self.instructions):
+        i = 0  # DebugInstructions are not serialized and have no line number
+        for instr in self.instructions:
             if isinstance(instr, DebugInstruction):
                 result += f"# {instr.text}\n"
             else:
                 result += f"{rspaces(i)} {instr.debug_str}\n"
+                i += 1
         return result
 
     def __len__(self):
